@@ -37,10 +37,11 @@ def make_sf(kind, h, level):
 def usage_pattern(kind, h, level, y, z):
     """how the score object is used, chosen reproducibly from the inputs: 0 plain; 1 another scorer of the same class (other
     degree / level) is constructed before this one is evaluated; 2 the scorer and the very same arrays were used for other data
-    before and are refilled in place; 3 the scorer is constructed at level 0.5 and its public attribute level re-assigned"""
+    before and are refilled in place; 3 the scorer is constructed at level 0.5 and its public attribute level re-assigned;
+    4 as 2 with Python lists (edited in place with slice assignment) instead of numpy arrays"""
     import zlib
 
-    return zlib.crc32(repr((kind, h, level, list(y), list(z))).encode()) % 4
+    return zlib.crc32(repr((kind, h, level, list(y), list(z))).encode()) % 5
 
 
 def call_score(kind, h, level, y, z, w=None):
@@ -67,6 +68,15 @@ def call_score(kind, h, level, y, z, w=None):
                 pass
             ya[:] = y
             za[:] = z
+        if pat == 4 and len(y) > 0:
+            ya, za = [abs(float(v)) + 1.5 for v in reversed(y)], [abs(float(v)) + 2.5 for v in reversed(z)]
+            try:
+                sf.score_per_obs(ya, za)
+                sf(ya, za)
+            except Exception:
+                pass
+            ya[:] = [float(v) for v in y]
+            za[:] = [float(v) for v in z]
         per = sf.score_per_obs(ya, za)
         per = np.asarray(per, dtype=float)
     except Exception as e:
